@@ -1,4 +1,9 @@
 import Bptk.Core.C13
+import Mathlib.Algebra.Order.Field.Basic
+import Mathlib.Algebra.Order.Field.Rat
+import Mathlib.Algebra.BigOperators.Group.List.Basic
+import Mathlib.Tactic.Linarith
+import Mathlib.Tactic.FieldSimp
 /-!
 C13 — property theorems.  Quantifier: every population (list of agents of any types, states, property
 entries incl. non-numeric ones), unbounded.  The carrier-generic part (`stat_spec`) holds for any
@@ -361,13 +366,13 @@ theorem propClauses (agents : List (Agent Int)) (ty st p : Nat) : PropClauses ag
 /-- The full property: for every population, every (type, state): the count is the number of agents of
 that type in that state (0 and no record when there is none), and for every property name the
 total / min / max / mean clauses. -/
-def C13_full : Prop :=
+def C13_int : Prop :=
   ∀ (agents : List (Agent Int)) (ty st : Nat),
     countCell (collect intOps agents) ty st = (members agents (ty, st)).length ∧
     (members agents (ty, st) = [] → lookupGroup (collect intOps agents) (ty, st) = none) ∧
     ∀ p, PropClauses agents ty st p
 
-theorem C13_full_proved : C13_full := by
+theorem C13_int_proved : C13_int := by
   intro agents ty st
   obtain ⟨hnone, hsome⟩ := stat_spec intOps agents (ty, st)
   refine ⟨?_, hnone, fun p => propClauses agents ty st p⟩
@@ -393,7 +398,664 @@ example :
     meanCell (collect intOps pop) 0 1 7 = some (6, 3) ∧ aggCell (collect intOps pop) 0 1 8 .total = none ∧
     countCell (collect intOps pop) 1 0 = 0 := by decide
 
+/-! ### wave 2 (1): the value level over an ordered field
+
+`K` is any linearly ordered field (instantiated at ℚ below).  The mean is the *quotient* the Python code
+computes, `total / count`, taken in the field. -/
+
+section Field
+set_option linter.unusedSectionVars false
+variable {K : Type} [Field K] [LinearOrder K] [IsStrictOrderedRing K]
+
+def fieldOps : Ops K := { zero := 0, add := (· + ·), lt := fun a b => decide (a < b) }
+
+/-- the number the code reports for the mean: numerator / denominator in the field. -/
+def meanVal (c : Option (K × Nat)) : Option K := c.map (fun x => x.1 / (x.2 : K))
+
+theorem foldl_add_sum_f : ∀ (vs : List K) (z : K), vs.foldl (fieldOps (K := K)).add z = z + vs.sum := by
+  intro vs
+  induction vs with
+  | nil => intro z; simp
+  | cons v rest ih => intro z; rw [List.foldl_cons, ih]; simp [fieldOps, add_assoc]
+
+theorem pyMin_f (v w : K) : pyMin fieldOps v w ≤ v ∧ pyMin fieldOps v w ≤ w ∧
+    (pyMin fieldOps v w = v ∨ pyMin fieldOps v w = w) := by
+  simp only [pyMin, fieldOps]
+  by_cases h : w < v
+  · simp [h, le_of_lt h]
+  · simp [h, not_lt.mp h]
+
+theorem pyMax_f (v w : K) : v ≤ pyMax fieldOps v w ∧ w ≤ pyMax fieldOps v w ∧
+    (pyMax fieldOps v w = v ∨ pyMax fieldOps v w = w) := by
+  simp only [pyMax, fieldOps]
+  by_cases h : v < w
+  · simp [h, le_of_lt h]
+  · simp [h, not_lt.mp h]
+
+theorem foldl_min_spec_f : ∀ (vs : List K) (v : K),
+    (vs.foldl (pyMin fieldOps) v ∈ v :: vs) ∧ ∀ x ∈ v :: vs, vs.foldl (pyMin fieldOps) v ≤ x := by
+  intro vs
+  induction vs with
+  | nil => intro v; simp
+  | cons w rest ih =>
+    intro v
+    obtain ⟨h1, h2⟩ := ih (pyMin fieldOps v w)
+    obtain ⟨hv, hw, hor⟩ := pyMin_f v w
+    rw [List.foldl_cons]
+    constructor
+    · rcases List.mem_cons.mp h1 with h | h
+      · rcases hor with e | e
+        · rw [h, e]; simp
+        · rw [h, e]; simp
+      · simp [h]
+    · intro x hx
+      have hm := h2 (pyMin fieldOps v w) (by simp)
+      rcases List.mem_cons.mp hx with rfl | hx
+      · exact le_trans hm hv
+      · rcases List.mem_cons.mp hx with rfl | hx
+        · exact le_trans hm hw
+        · exact h2 x (by simp [hx])
+
+theorem foldl_max_spec_f : ∀ (vs : List K) (v : K),
+    (vs.foldl (pyMax fieldOps) v ∈ v :: vs) ∧ ∀ x ∈ v :: vs, x ≤ vs.foldl (pyMax fieldOps) v := by
+  intro vs
+  induction vs with
+  | nil => intro v; simp
+  | cons w rest ih =>
+    intro v
+    obtain ⟨h1, h2⟩ := ih (pyMax fieldOps v w)
+    obtain ⟨hv, hw, hor⟩ := pyMax_f v w
+    rw [List.foldl_cons]
+    constructor
+    · rcases List.mem_cons.mp h1 with h | h
+      · rcases hor with e | e
+        · rw [h, e]; simp
+        · rw [h, e]; simp
+      · simp [h]
+    · intro x hx
+      have hm := h2 (pyMax fieldOps v w) (by simp)
+      rcases List.mem_cons.mp hx with rfl | hx
+      · exact le_trans hv hm
+      · rcases List.mem_cons.mp hx with rfl | hx
+        · exact le_trans hw hm
+        · exact h2 x (by simp [hx])
+
+/-- a sum of `n ≥ 1` numbers lies between `n · least` and `n · greatest`. -/
+theorem sum_bounds : ∀ (vs : List K) (lo hi : K), (∀ x ∈ vs, lo ≤ x) → (∀ x ∈ vs, x ≤ hi) →
+    (vs.length : K) * lo ≤ vs.sum ∧ vs.sum ≤ (vs.length : K) * hi := by
+  intro vs
+  induction vs with
+  | nil => intro lo hi _ _; simp
+  | cons v rest ih =>
+    intro lo hi hlo hhi
+    obtain ⟨h1, h2⟩ := ih lo hi (fun x hx => hlo x (by simp [hx])) (fun x hx => hhi x (by simp [hx]))
+    have := hlo v (by simp); have := hhi v (by simp)
+    simp only [List.length_cons, List.sum_cons, Nat.cast_add, Nat.cast_one]
+    constructor <;> nlinarith
+
+theorem valuesOf_length_of_single {β : Type} (p : Nat) : ∀ (ms : List (Agent β)),
+    (∀ a ∈ ms, (numericOf a p).length = 1) → (valuesOf ms p).length = ms.length := by
+  intro ms
+  induction ms with
+  | nil => intro _; rfl
+  | cons a rest ih =>
+    intro h
+    have ha := h a (by simp)
+    have := ih (fun b hb => h b (by simp [hb]))
+    simp [valuesOf, List.flatMap_cons] at this ⊢
+    omega
+
+/-- The statement for one (type, state) group and one property over the ordered field `K`. -/
+structure FieldClauses (agents : List (Agent K)) (ty st p : Nat) : Prop where
+  absent : valuesOf (members agents (ty, st)) p = [] →
+    (∀ w, aggCell (collect fieldOps agents) ty st p w = none) ∧ meanCell (collect fieldOps agents) ty st p = none
+  total : valuesOf (members agents (ty, st)) p ≠ [] →
+    aggCell (collect fieldOps agents) ty st p .total = some (valuesOf (members agents (ty, st)) p).sum
+  /-- min is the least element of the values -/
+  min : valuesOf (members agents (ty, st)) p ≠ [] →
+    ∃ m, aggCell (collect fieldOps agents) ty st p .min = some m ∧ m ∈ valuesOf (members agents (ty, st)) p ∧
+      ∀ x ∈ valuesOf (members agents (ty, st)) p, m ≤ x
+  /-- max is the greatest element of the values -/
+  max : valuesOf (members agents (ty, st)) p ≠ [] →
+    ∃ m, aggCell (collect fieldOps agents) ty st p .max = some m ∧ m ∈ valuesOf (members agents (ty, st)) p ∧
+      ∀ x ∈ valuesOf (members agents (ty, st)) p, x ≤ m
+  /-- homogeneous group: the reported mean is the quotient total / count, count = number of agents -/
+  mean : members agents (ty, st) ≠ [] → (∀ a ∈ members agents (ty, st), numericOf a p ≠ []) →
+    meanVal (meanCell (collect fieldOps agents) ty st p) =
+      some ((valuesOf (members agents (ty, st)) p).sum / ((members agents (ty, st)).length : K))
+  /-- every agent of the group carries the property exactly once (agent.properties is a dict): the reported
+  mean is the arithmetic mean of the values and lies between the reported min and max -/
+  mean_arith : members agents (ty, st) ≠ [] → (∀ a ∈ members agents (ty, st), (numericOf a p).length = 1) →
+    ∃ mn mx, aggCell (collect fieldOps agents) ty st p .min = some mn ∧
+      aggCell (collect fieldOps agents) ty st p .max = some mx ∧
+      meanVal (meanCell (collect fieldOps agents) ty st p) =
+        some ((valuesOf (members agents (ty, st)) p).sum / ((valuesOf (members agents (ty, st)) p).length : K)) ∧
+      mn ≤ (valuesOf (members agents (ty, st)) p).sum / ((valuesOf (members agents (ty, st)) p).length : K) ∧
+      (valuesOf (members agents (ty, st)) p).sum / ((valuesOf (members agents (ty, st)) p).length : K) ≤ mx
+  /-- a group of one agent carrying the value `v`: all four numbers are `v` -/
+  single : ∀ a v, members agents (ty, st) = [a] → numericOf a p = [v] →
+    aggCell (collect fieldOps agents) ty st p .total = some v ∧ aggCell (collect fieldOps agents) ty st p .min = some v ∧
+    aggCell (collect fieldOps agents) ty st p .max = some v ∧
+    meanVal (meanCell (collect fieldOps agents) ty st p) = some v
+
+theorem valuesOf_ne_nil' {β : Type} (ms : List (Agent β)) (p : Nat) (h : ms ≠ []) (hall : ∀ a ∈ ms, numericOf a p ≠ []) :
+    valuesOf ms p ≠ [] := by
+  cases ms with
+  | nil => exact absurd rfl h
+  | cons a rest =>
+    have := hall a (by simp)
+    simp [valuesOf, List.flatMap_cons, this]
+
+theorem fieldClauses (agents : List (Agent K)) (ty st p : Nat) : FieldClauses agents ty st p := by
+  obtain ⟨hnone, hsome⟩ := stat_spec fieldOps agents (ty, st)
+  -- the three basic clauses first
+  have htot : valuesOf (members agents (ty, st)) p ≠ [] →
+      aggCell (collect fieldOps agents) ty st p .total = some (valuesOf (members agents (ty, st)) p).sum := by
+    intro hne
+    have hm : members agents (ty, st) ≠ [] := by
+      intro h; apply hne; simp [h, valuesOf]
+    obtain ⟨g, hg, _, hp⟩ := hsome hm
+    have hp' := hp p
+    cases hv : valuesOf (members agents (ty, st)) p with
+    | nil => exact absurd hv hne
+    | cons v vs =>
+      rw [hv] at hp'
+      obtain ⟨r, hr, ht, _⟩ := hp'
+      simp only [aggCell, hg, hr, ht]
+      rw [foldl_add_sum_f]; simp [fieldOps]
+  have hmin : valuesOf (members agents (ty, st)) p ≠ [] →
+      ∃ m, aggCell (collect fieldOps agents) ty st p .min = some m ∧ m ∈ valuesOf (members agents (ty, st)) p ∧
+        ∀ x ∈ valuesOf (members agents (ty, st)) p, m ≤ x := by
+    intro hne
+    have hm : members agents (ty, st) ≠ [] := by
+      intro h; apply hne; simp [h, valuesOf]
+    obtain ⟨g, hg, _, hp⟩ := hsome hm
+    have hp' := hp p
+    cases hv : valuesOf (members agents (ty, st)) p with
+    | nil => exact absurd hv hne
+    | cons v vs =>
+      rw [hv] at hp'
+      obtain ⟨r, hr, _, hmin, _⟩ := hp'
+      exact ⟨r.min, by simp [aggCell, hg, hr], by rw [hmin]; exact (foldl_min_spec_f vs v).1,
+        by rw [hmin]; exact (foldl_min_spec_f vs v).2⟩
+  have hmax : valuesOf (members agents (ty, st)) p ≠ [] →
+      ∃ m, aggCell (collect fieldOps agents) ty st p .max = some m ∧ m ∈ valuesOf (members agents (ty, st)) p ∧
+        ∀ x ∈ valuesOf (members agents (ty, st)) p, x ≤ m := by
+    intro hne
+    have hm : members agents (ty, st) ≠ [] := by
+      intro h; apply hne; simp [h, valuesOf]
+    obtain ⟨g, hg, _, hp⟩ := hsome hm
+    have hp' := hp p
+    cases hv : valuesOf (members agents (ty, st)) p with
+    | nil => exact absurd hv hne
+    | cons v vs =>
+      rw [hv] at hp'
+      obtain ⟨r, hr, _, _, hmax, _⟩ := hp'
+      exact ⟨r.max, by simp [aggCell, hg, hr], by rw [hmax]; exact (foldl_max_spec_f vs v).1,
+        by rw [hmax]; exact (foldl_max_spec_f vs v).2⟩
+  have hmean : members agents (ty, st) ≠ [] → (∀ a ∈ members agents (ty, st), numericOf a p ≠ []) →
+      meanVal (meanCell (collect fieldOps agents) ty st p) =
+        some ((valuesOf (members agents (ty, st)) p).sum / ((members agents (ty, st)).length : K)) := by
+    intro hm hall
+    obtain ⟨g, hg, _, hp⟩ := hsome hm
+    have hp' := hp p
+    have hne := valuesOf_ne_nil' _ p hm hall
+    have hl := lastC_homogeneous p (members agents (ty, st)) 0 0 hall hm
+    cases hv : valuesOf (members agents (ty, st)) p with
+    | nil => exact absurd hv hne
+    | cons v vs =>
+      rw [hv] at hp'
+      obtain ⟨r, hr, ht, _, _, hmn, hmd⟩ := hp'
+      simp only [meanVal, meanCell, hg, hr, Option.map_some, hmn, ht, hmd, hl]
+      rw [foldl_add_sum_f]; simp [fieldOps]
+  refine ⟨?_, htot, hmin, hmax, hmean, ?_, ?_⟩
+  · intro hv
+    by_cases hm : members agents (ty, st) = []
+    · have hg := hnone hm
+      exact ⟨fun w => by simp [aggCell, hg], by simp [meanCell, hg]⟩
+    · obtain ⟨g, hg, _, hp⟩ := hsome hm
+      have hp' := hp p
+      rw [hv] at hp'
+      exact ⟨fun w => by simp [aggCell, hg, hp'], by simp [meanCell, hg, hp']⟩
+  · intro hm hone
+    have hall : ∀ a ∈ members agents (ty, st), numericOf a p ≠ [] := by
+      intro a ha h
+      have := hone a ha
+      simp [h] at this
+    have hne := valuesOf_ne_nil' _ p hm hall
+    have hlen := valuesOf_length_of_single p _ hone
+    obtain ⟨mn, h1, _, h3⟩ := hmin hne
+    obtain ⟨mx, h4, _, h6⟩ := hmax hne
+    have hmv := hmean hm hall
+    rw [← hlen] at hmv
+    obtain ⟨hb1, hb2⟩ := sum_bounds (valuesOf (members agents (ty, st)) p) mn mx h3 h6
+    have hpos : (0 : K) < ((valuesOf (members agents (ty, st)) p).length : K) := by
+      have : 0 < (valuesOf (members agents (ty, st)) p).length := List.length_pos_iff.mpr hne
+      exact_mod_cast this
+    refine ⟨mn, mx, h1, h4, hmv, ?_, ?_⟩
+    · rw [le_div_iff₀ hpos]; linarith
+    · rw [div_le_iff₀ hpos]; linarith
+  · intro a v hms hv
+    have hm : members agents (ty, st) ≠ [] := by simp [hms]
+    have hvals : valuesOf (members agents (ty, st)) p = [v] := by simp [hms, valuesOf, hv]
+    have hne : valuesOf (members agents (ty, st)) p ≠ [] := by simp [hvals]
+    have hall : ∀ b ∈ members agents (ty, st), numericOf b p ≠ [] := by
+      intro b hb; rw [hms] at hb; simp at hb; subst hb; simp [hv]
+    obtain ⟨mn, h1, h2, _⟩ := hmin hne
+    obtain ⟨mx, h4, h5, _⟩ := hmax hne
+    rw [hvals] at h2 h5
+    simp at h2 h5
+    refine ⟨by rw [htot hne, hvals]; simp, by rw [h1, h2], by rw [h4, h5], ?_⟩
+    rw [hmean hm hall, hvals, hms]; simp
+
+/-- C13 over an ordered field: for every population, every (type, state): count = number of agents of that
+type in that state (no record when none), and all `FieldClauses` for every property name. -/
+def C13_field (K : Type) [Field K] [LinearOrder K] [IsStrictOrderedRing K] : Prop :=
+  ∀ (agents : List (Agent K)) (ty st : Nat),
+    countCell (collect fieldOps agents) ty st = (members agents (ty, st)).length ∧
+    (members agents (ty, st) = [] → lookupGroup (collect fieldOps agents) (ty, st) = none) ∧
+    ∀ p, FieldClauses agents ty st p
+
+theorem C13_field_proved : C13_field K := by
+  intro agents ty st
+  obtain ⟨hnone, hsome⟩ := stat_spec fieldOps agents (ty, st)
+  refine ⟨?_, hnone, fun p => fieldClauses agents ty st p⟩
+  by_cases hm : members agents (ty, st) = []
+  · simp [countCell, hnone hm, hm]
+  · obtain ⟨g, hg, hc, _⟩ := hsome hm
+    simp [countCell, hg, hc]
+
+end Field
+
+/-- the instance the property text speaks of: rational values. -/
+theorem C13_rat : C13_field ℚ := C13_field_proved
+
+/-- Non-vacuity over ℚ: negative, zero and fractional values; group (0,1) has three agents, total 13/2,
+min −3, max 9, mean 13/6 (between min and max); a single-agent group reports its value four times. -/
+example :
+    let pop : List (Agent ℚ) :=
+      [⟨0, 1, [⟨7, true, -3⟩]⟩, ⟨1, 1, [⟨7, true, 50⟩]⟩, ⟨0, 1, [⟨7, true, 1/2⟩]⟩, ⟨0, 0, [⟨7, true, -5/4⟩]⟩,
+       ⟨0, 1, [⟨7, true, 9⟩]⟩]
+    aggCell (collect fieldOps pop) 0 1 7 .total = some (13/2) ∧ aggCell (collect fieldOps pop) 0 1 7 .min = some (-3) ∧
+    aggCell (collect fieldOps pop) 0 1 7 .max = some 9 ∧ meanVal (meanCell (collect fieldOps pop) 0 1 7) = some (13/6) ∧
+    meanVal (meanCell (collect fieldOps pop) 0 0 7) = some (-5/4) ∧ aggCell (collect fieldOps pop) 0 0 7 .min = some (-5/4) := by
+  decide +kernel
+
+/-! ### wave 2 (2): the cell function of `run_scenario` / `run_scenario_step`
+
+`selection_spec`: whatever else a selection names, a selected (agent type, state, property, aggregate, time)
+— or (agent type, state, time) in count mode — is reported as the number `pointCell` reads straight from the
+statistics of that time; `formats_agree`: df, dict and json report the same number; `empty_state_zero`: it is 0
+where the state is empty. -/
+
+section Select
+variable {α : Type}
+
+theorem lookupA_keys {κ β : Type} [DecidableEq κ] (f : κ → β) (k : κ) : ∀ l : List κ,
+    lookupA (l.map (fun k => (k, f k))) k = if k ∈ l then some (f k) else none := by
+  intro l
+  induction l with
+  | nil => simp [lookupA]
+  | cons x rest ih =>
+    by_cases h : x = k
+    · subst h; simp [lookupA]
+    · have h' : ¬ k = x := fun e => h e.symm
+      simp [lookupA, h, h', ih]
+
+theorem lookupA_append {κ β : Type} [DecidableEq κ] (k : κ) : ∀ (l1 l2 : List (κ × β)),
+    lookupA (l1 ++ l2) k = match lookupA l1 k with | some v => some v | none => lookupA l2 k := by
+  intro l1
+  induction l1 with
+  | nil => intro l2; simp [lookupA]
+  | cons x rest ih =>
+    intro l2
+    obtain ⟨k', v⟩ := x
+    by_cases h : k' = k
+    · simp [lookupA, h]
+    · simp [lookupA, h, ih]
+
+theorem lookupA_mem {κ β : Type} [DecidableEq κ] (k : κ) (v : β) : ∀ (l : List (κ × β)),
+    lookupA l k = some v → (k, v) ∈ l := by
+  intro l
+  induction l with
+  | nil => simp [lookupA]
+  | cons x rest ih =>
+    obtain ⟨k', w⟩ := x
+    by_cases h : k' = k
+    · subst h; simp [lookupA]; intro e; left; exact e.symm
+    · simp only [lookupA, h, if_false]; intro e; exact List.mem_cons_of_mem _ (ih e)
+
+/-- the column is one the selection (with aggregate list `aggs`) asks for in a state. -/
+def Wanted (props : List Nat) (aggs : List Agg4) (c : Col) : Prop :=
+  match c.pa with
+  | none => props = []
+  | some (p, a) => props ≠ [] ∧ p ∈ props ∧ a ∈ aggs
+
+instance Wanted.dec (props : List Nat) (aggs : List Agg4) (c : Col) : Decidable (Wanted props aggs c) := by
+  obtain ⟨cs, cpa⟩ := c
+  cases cpa with
+  | none => exact inferInstanceAs (Decidable (props = []))
+  | some pa => exact inferInstanceAs (Decidable (props ≠ [] ∧ pa.1 ∈ props ∧ pa.2 ∈ aggs))
+
+theorem mem_groupCols (props : List Nat) (aggs : List Agg4) (st : Nat) (c : Col) :
+    c ∈ groupCols props aggs st ↔ c.state = st ∧ Wanted props aggs c := by
+  obtain ⟨cs, cpa⟩ := c
+  unfold groupCols Wanted
+  by_cases hp : props = []
+  · cases cpa with
+    | none => simp [hp]
+    | some pa => simp [hp]
+  · cases cpa with
+    | none => simp [hp]
+    | some pa =>
+      obtain ⟨p, a⟩ := pa
+      simp only [hp, if_false, List.mem_flatMap, List.mem_map, Col.mk.injEq, Option.some.injEq, Prod.mk.injEq]
+      constructor
+      · rintro ⟨p', hp', a', ha', e1, e2, e3⟩
+        subst e1 e2 e3
+        exact ⟨rfl, fun h => hp h, hp', ha'⟩
+      · rintro ⟨e, _, h2, h3⟩
+        exact ⟨p, h2, a, h3, e.symm, rfl, rfl⟩
+
+/-- reading a column in the `counts` dict of one time. -/
+theorem lookup_rowOf (sel : Sel) (aggs : List Agg4) (ag : Nat) (c : Col) : ∀ s : Stats α,
+    lookupA (rowOf sel aggs s ag) c =
+      if c.state ∈ sel.states ∧ Wanted sel.props aggs c then (lookupGroup s (ag, c.state)).map (fun g => valOf g c)
+      else none := by
+  intro s
+  induction s with
+  | nil => simp [rowOf, statesOf, lookupA, lookupGroup]
+  | cons x rest ih =>
+    obtain ⟨⟨ty, st⟩, g⟩ := x
+    have hrow : rowOf sel aggs (((ty, st), g) :: rest) ag =
+        (if ty = ag then (if st ∈ sel.states then cellsOfGroup sel.props aggs st g else []) else []) ++
+          rowOf sel aggs rest ag := by
+      by_cases h : ty = ag
+      · simp [rowOf, statesOf, List.filterMap_cons, h]
+      · simp [rowOf, statesOf, List.filterMap_cons, h]
+    rw [hrow, lookupA_append, ih]
+    by_cases hty : ty = ag
+    · by_cases hst : st ∈ sel.states
+      · simp only [hty, hst, if_true, cellsOfGroup, lookupA_keys, mem_groupCols]
+        by_cases hcs : c.state = st
+        · by_cases hw : Wanted sel.props aggs c
+          · simp [hcs, hw, hst, lookupGroup, hty]
+          · simp [hcs, hw]
+        · have hne : ¬ ((ty, st) = (ag, c.state)) := by
+            intro e; apply hcs; simp at e; exact e.2.symm
+          have hne' : ¬ ((ag, st) = (ag, c.state)) := by
+            intro e; apply hcs; simp at e; exact e.symm
+          simp [hcs, lookupGroup, hne']
+      · have hne : ¬ ((ag, st) = (ag, c.state)) ∨ c.state ∉ sel.states := by
+          by_cases e : st = c.state
+          · right; rw [← e]; exact hst
+          · left; intro e'; apply e; simp at e'; exact e'
+        rcases hne with hne | hne
+        · simp [hty, hst, lookupA, lookupGroup, hne]
+        · simp [hty, hst, lookupA, hne]
+    · have hne : ¬ ((ty, st) = (ag, c.state)) := by
+        intro e; apply hty; simp at e; exact e.1
+      simp [hty, lookupA, lookupGroup, hne]
+
+/-- the frame cell of a wanted column in a selected state is the number read from the statistics. -/
+theorem cell_getDf (sel : Sel) (aggs : List Agg4) (data : History α) (ag : Nat) (c : Col) (t : Nat)
+    (hs : c.state ∈ sel.states) (hw : Wanted sel.props aggs c) :
+    (getDf sel aggs data ag).cell c t = pointCell data ag c t := by
+  simp only [getDf, pointCell]
+  cases lookupA data t with
+  | none => rfl
+  | some s =>
+    simp only [lookup_rowOf, hs, hw, and_self, if_true, cellOf]
+    cases lookupGroup s (ag, c.state) <;> rfl
+
+/-- a time without a row: every cell of the frame is a filled 0. -/
+theorem cell_zero_of_not_index (sel : Sel) (aggs : List Agg4) (data : History α) (ag : Nat) (c : Col) (t : Nat)
+    (h : t ∉ (getDf sel aggs data ag).index) : (getDf sel aggs data ag).cell c t = .zero := by
+  simp only [getDf]
+  cases hl : lookupA data t with
+  | none => rfl
+  | some s =>
+    have hmem := lookupA_mem t s data hl
+    have hrow : rowOf sel aggs s ag = [] := by
+      by_contra hne
+      apply h
+      simp only [getDf, List.mem_map, List.mem_filter]
+      exact ⟨(t, s), ⟨hmem, by simpa using hne⟩, rfl⟩
+    simp [hrow, lookupA]
+
+/-- a column that is not in the frame: the state is never occupied, all its numbers are 0. -/
+theorem cell_zero_of_not_col (sel : Sel) (aggs : List Agg4) (data : History α) (ag : Nat) (c : Col) (t : Nat)
+    (h : c ∉ (getDf sel aggs data ag).cols) : (getDf sel aggs data ag).cell c t = .zero := by
+  simp only [getDf]
+  cases hl : lookupA data t with
+  | none => rfl
+  | some s =>
+    have hmem := lookupA_mem t s data hl
+    cases hc : lookupA (rowOf sel aggs s ag) c with
+    | none => simp [hc]
+    | some v =>
+      exfalso; apply h
+      have := lookupA_mem c v _ hc
+      simp only [getDf, List.mem_append, List.mem_flatMap, List.mem_map]
+      left
+      exact ⟨(t, s), hmem, (c, v), this, rfl⟩
+
+theorem mem_selCols (sel : Sel) (aggs : List Agg4) (c : Col) (hs : c.state ∈ sel.states)
+    (hw : Wanted sel.props aggs c) (hp : sel.props ≠ []) : c ∈ selCols sel aggs := by
+  obtain ⟨cs, cpa⟩ := c
+  cases cpa with
+  | none => exact absurd hw hp
+  | some pa =>
+    obtain ⟨p, a⟩ := pa
+    obtain ⟨_, h2, h3⟩ := hw
+    simp only [selCols, List.mem_flatMap, List.mem_map]
+    exact ⟨cs, hs, p, h2, a, h3, rfl⟩
+
+theorem mem_effAggs (fmt : Fmt) (aggs : List Agg4) (a : Agg4) (h : a ∈ aggs) : a ∈ effAggs fmt aggs := by
+  have hne : aggs ≠ [] := by intro e; rw [e] at h; simp at h
+  cases fmt <;> cases a <;> simp [effAggs, hne, h]
+
+/-- the selection names this column. -/
+def Selected (sel : Sel) (c : Col) : Prop := c.state ∈ sel.states ∧ Wanted sel.props sel.aggs c
+
+theorem wanted_eff (fmt : Fmt) (sel : Sel) (c : Col) (h : Wanted sel.props sel.aggs c) :
+    Wanted sel.props (effAggs fmt sel.aggs) c := by
+  obtain ⟨cs, cpa⟩ := c
+  cases cpa with
+  | none => exact h
+  | some pa => exact ⟨h.1, h.2.1, mem_effAggs fmt _ _ h.2.2⟩
+
+/-- **selection_spec.** If the call returns, every selected cell — whatever else the selection names, in
+whichever format — is the number `pointCell` reads from the statistics of that time (0 when there is no such
+time or no such group), and that number is not a `KeyError`. -/
+theorem selection_spec (fmt : Fmt) (sel : Sel) (data : History α) (out : Out α)
+    (hrun : runOut fmt sel data = some out) (ag : Nat) (hag : ag ∈ sel.agents) (c : Col) (hc : Selected sel c)
+    (t : Nat) :
+    readOut out ag c t = pointCell data ag c t ∧ (pointCell data ag c t).isErr = false := by
+  obtain ⟨hs, hw0⟩ := hc
+  have hw := wanted_eff fmt sel c hw0
+  simp only [runOut] at hrun
+  by_cases hr : raises sel (effAggs fmt sel.aggs) data = true
+  · simp [hr] at hrun
+  · simp only [hr] at hrun
+    have hcell := cell_getDf sel (effAggs fmt sel.aggs) data ag c t hs hw
+    -- the number is not a KeyError
+    have hnoerr : (pointCell data ag c t).isErr = false := by
+      cases hpe : (pointCell data ag c t).isErr with
+      | false => rfl
+      | true =>
+        exfalso; apply hr
+        simp only [pointCell] at hpe
+        cases hl : lookupA data t with
+        | none => simp [hl, Num.isErr] at hpe
+        | some s =>
+          have hmem := lookupA_mem t s data hl
+          simp only [hl, cellOf] at hpe
+          have hrow := lookup_rowOf sel (effAggs fmt sel.aggs) ag c s
+          simp only [hs, hw, and_self, if_true] at hrow
+          cases hg : lookupGroup s (ag, c.state) with
+          | none => simp [hg, Num.isErr] at hpe
+          | some g =>
+            simp only [hg] at hpe
+            rw [hg] at hrow
+            have hin := lookupA_mem c _ _ hrow
+            simp only [raises, Bool.or_eq_true, List.any_eq_true]
+            right
+            exact ⟨(t, s), hmem, ag, hag, (c, valOf g c), hin, hpe⟩
+    refine ⟨?_, hnoerr⟩
+    by_cases hd : data.isEmpty = true
+    · simp only [hd, if_true, Bool.false_eq_true, if_false, Option.some.injEq] at hrun
+      subst hrun
+      have : data = [] := by simpa using hd
+      simp [readOut, lookupA, pointCell, this]
+    · simp only [hd, Bool.false_eq_true, if_false, Option.some.injEq] at hrun
+      subst hrun
+      simp only [readOut]
+      rw [lookupA_keys (fun k => series (getDf sel (effAggs fmt sel.aggs) data k.1)
+        (outIndex fmt sel (effAggs fmt sel.aggs) data k.1) k.2) (ag, c)]
+      by_cases hk : (ag, c) ∈ outKeys sel (effAggs fmt sel.aggs) data
+      · simp only [hk, if_true, series]
+        rw [lookupA_keys (fun t => (getDf sel (effAggs fmt sel.aggs) data ag).cell c t) t]
+        by_cases ht : t ∈ outIndex fmt sel (effAggs fmt sel.aggs) data ag
+        · simp [ht, hcell]
+        · have hni : t ∉ (getDf sel (effAggs fmt sel.aggs) data ag).index := by
+            intro hin; apply ht
+            cases fmt
+            · simp only [outIndex, List.mem_flatMap]; exact ⟨ag, hag, hin⟩
+            · exact hin
+            · exact hin
+          have := cell_zero_of_not_index sel (effAggs fmt sel.aggs) data ag c t hni
+          simp [ht, ← hcell, this]
+      · simp only [hk, if_false]
+        have hnc : c ∉ outCols sel (effAggs fmt sel.aggs) (getDf sel (effAggs fmt sel.aggs) data ag) := by
+          intro hin; apply hk
+          simp only [outKeys, List.mem_flatMap, List.mem_map]
+          exact ⟨ag, hag, c, hin, rfl⟩
+        by_cases hp : sel.props = []
+        · simp only [outCols, hp, if_true] at hnc
+          have := cell_zero_of_not_col sel (effAggs fmt sel.aggs) data ag c t hnc
+          rw [← hcell, this]
+        · exfalso; apply hnc
+          simp only [outCols, hp, if_false]
+          exact mem_selCols sel _ c hs hw hp
+
+/-- **formats_agree.** df, dict and json report the same number for every selected cell. -/
+theorem formats_agree (f1 f2 : Fmt) (sel : Sel) (data : History α) (o1 o2 : Out α)
+    (h1 : runOut f1 sel data = some o1) (h2 : runOut f2 sel data = some o2)
+    (ag : Nat) (hag : ag ∈ sel.agents) (c : Col) (hc : Selected sel c) (t : Nat) :
+    readOut o1 ag c t = readOut o2 ag c t := by
+  rw [(selection_spec f1 sel data o1 h1 ag hag c hc t).1, (selection_spec f2 sel data o2 h2 ag hag c hc t).1]
+
+/-- **selection independence.** Two selections (any subsets of agents / states / properties / aggregate types,
+any formats) that both name a cell report the same number for it. -/
+theorem selection_indep (f1 f2 : Fmt) (s1 s2 : Sel) (data : History α) (o1 o2 : Out α)
+    (h1 : runOut f1 s1 data = some o1) (h2 : runOut f2 s2 data = some o2)
+    (ag : Nat) (ha1 : ag ∈ s1.agents) (ha2 : ag ∈ s2.agents) (c : Col) (hc1 : Selected s1 c) (hc2 : Selected s2 c)
+    (t : Nat) : readOut o1 ag c t = readOut o2 ag c t := by
+  rw [(selection_spec f1 s1 data o1 h1 ag ha1 c hc1 t).1, (selection_spec f2 s2 data o2 h2 ag ha2 c hc2 t).1]
+
+theorem lookupA_histOf (o : Ops α) (t : Nat) : ∀ pops : List (Nat × List (Agent α)),
+    lookupA (histOf o pops) t = (lookupA pops t).map (collect o) := by
+  intro pops
+  induction pops with
+  | nil => rfl
+  | cons x rest ih =>
+    obtain ⟨t', as⟩ := x
+    by_cases h : t' = t
+    · simp [histOf, lookupA, h]
+    · have := ih
+      simp only [histOf] at this
+      simp [histOf, lookupA, h, this]
+
+/-- on the statistics history of a run: the number of a time is the number of that time's population. -/
+theorem pointCell_histOf (o : Ops α) (pops : List (Nat × List (Agent α))) (ag : Nat) (c : Col) (t : Nat) :
+    pointCell (histOf o pops) ag c t =
+      match lookupA pops t with
+      | none => .zero
+      | some agents => cellOf (collect o agents) ag c := by
+  simp only [pointCell, lookupA_histOf]
+  cases lookupA pops t <;> rfl
+
+/-- **zero where the state is empty**: no agent of the type in the state at that time (or no such time). -/
+theorem empty_state_zero (o : Ops α) (agents : List (Agent α)) (ag : Nat) (c : Col)
+    (h : members agents (ag, c.state) = []) : cellOf (collect o agents) ag c = .zero := by
+  simp [cellOf, (stat_spec o agents (ag, c.state)).1 h]
+
+/-- the numbers `cellOf` reads are the cells `C13_int` / `C13_field` speak about. -/
+theorem cellOf_count (s : Stats α) (ag st : Nat) :
+    cellOf s ag ⟨st, none⟩ = match lookupGroup s (ag, st) with | none => .zero | some _ => .cnt (countCell s ag st) := by
+  simp only [cellOf, countCell, valOf]
+  cases lookupGroup s (ag, st) <;> rfl
+
+theorem cellOf_agg (s : Stats α) (ag st p : Nat) (g : Group α) (hg : lookupGroup s (ag, st) = some g) :
+    cellOf s ag ⟨st, some (p, .total)⟩ = (match aggCell s ag st p .total with | some v => .val v | none => .keyError) ∧
+    cellOf s ag ⟨st, some (p, .min)⟩ = (match aggCell s ag st p .min with | some v => .val v | none => .keyError) ∧
+    cellOf s ag ⟨st, some (p, .max)⟩ = (match aggCell s ag st p .max with | some v => .val v | none => .keyError) ∧
+    cellOf s ag ⟨st, some (p, .mean)⟩ =
+      (match meanCell s ag st p with | some x => .ratio x.1 x.2 | none => .keyError) := by
+  simp only [cellOf, aggCell, meanCell, hg, valOf, readRec]
+  cases lookupProp g.props p <;> simp [recCell]
+
+end Select
+
+/-- integer reading of a reported number (per-run probe obligations on the frame model). -/
+def numInt : Num Int → Option Int
+  | .cnt n => some n
+  | .val v => some v
+  | .zero => some 0
+  | _ => none
+
+/-- The selection part of the property: on the statistics history of any run (any populations at any recorded
+times, any carrier operations), for any format and any selection on which the call returns, every selected
+cell is the number of that time's population, 0 where the state is empty or the time is not recorded, never a
+KeyError; hence independent of the format and of the rest of the selection. -/
+def C13_selection : Prop :=
+  ∀ (α : Type) (o : Ops α) (pops : List (Nat × List (Agent α))) (fmt : Fmt) (sel : Sel) (out : Out α),
+    runOut fmt sel (histOf o pops) = some out →
+    ∀ ag ∈ sel.agents, ∀ c, Selected sel c → ∀ t,
+      (readOut out ag c t = match lookupA pops t with
+        | none => .zero
+        | some agents => cellOf (collect o agents) ag c) ∧
+      (∀ agents, lookupA pops t = some agents → members agents (ag, c.state) = [] → readOut out ag c t = .zero) ∧
+      (readOut out ag c t).isErr = false
+
+theorem C13_selection_proved : C13_selection := by
+  intro α o pops fmt sel out hrun ag hag c hc t
+  obtain ⟨h1, h2⟩ := selection_spec fmt sel (histOf o pops) out hrun ag hag c hc t
+  rw [pointCell_histOf] at h1 h2
+  refine ⟨h1, ?_, by rw [h1]; exact h2⟩
+  intro agents hl hm
+  rw [h1, hl]
+  exact empty_state_zero o agents ag c hm
+
+/-- Non-vacuity of the selection theorem: two recorded times, two agent types; property mode in df and count
+mode in json return, select an occupied and a never occupied state, and the numbers read are 5, 0 and count 2. -/
+example :
+    let pops : List (Nat × List (Agent Int)) :=
+      [(1, [⟨0, 0, [⟨7, true, 5⟩]⟩, ⟨1, 0, [⟨7, true, 2⟩]⟩]), (2, [⟨0, 0, [⟨7, true, -1⟩]⟩, ⟨0, 0, [⟨7, true, 4⟩]⟩])]
+    (∃ out, runOut .df ⟨[0, 1], [0, 2], [7], [.max, .total]⟩ (histOf intOps pops) = some out ∧
+      readOut out 0 ⟨0, some (7, .max)⟩ 1 = .val 5 ∧
+      readOut out 0 ⟨2, some (7, .max)⟩ 1 = .zero ∧
+      readOut out 1 ⟨0, some (7, .total)⟩ 2 = .zero) ∧
+    (∃ out, runOut .json ⟨[0], [0, 1], [], []⟩ (histOf intOps pops) = some out ∧
+      readOut out 0 ⟨0, none⟩ 2 = .cnt 2) ∧
+    runOut .dict ⟨[0], [0], [9], [.min]⟩ (histOf intOps pops) = none := by
+  refine ⟨⟨_, rfl, ?_⟩, ⟨_, rfl, ?_⟩, ?_⟩ <;> decide
+
+/-- The full property: the aggregates over `Int` (wave 1), over every ordered field with the mean as a quotient
+(instantiated at ℚ), and the selection / format independence of the reported cells. -/
+def C13_full : Prop := C13_int ∧ C13_field ℚ ∧ C13_selection
+
+theorem C13_full_proved : C13_full := ⟨C13_int_proved, C13_rat, C13_selection_proved⟩
+
+#print axioms C13_int_proved
+#print axioms C13_field_proved
+#print axioms C13_rat
 #print axioms C13_full_proved
+#print axioms C13_selection_proved
+#print axioms selection_spec
+#print axioms formats_agree
+#print axioms selection_indep
 #print axioms stat_spec
 #print axioms lookup_collect
 #print axioms lastC_homogeneous
